@@ -6,6 +6,7 @@ package tex
 // Comments only; compiled only with the build tag `verif`.
 
 //@ arith mixed
+//@ index elt
 //@ property C20
 //@ assumption UnmarshalJSON receives a well-formed JSON scalar token (what encoding/json and jsoniter pass): non-empty, and if it starts with a quote it has length >= 2 and ends with a quote
 //
@@ -73,7 +74,7 @@ package tex
 // Abstract view: the unread bytes at(b,0) .. at(b,blen(b)-1); lastRead as in bytes.Buffer.
 //@ pure bvalid(b *Buffer) bool = 0 <= b.off && b.off <= len(b.buf)
 //@ pure blen(b *Buffer) int = len(b.buf) - b.off
-//@ pure at(b *Buffer, i int) uint8 = b.buf[b.off+i]
+//@ pure at(b *Buffer, i int) uint8 = elt(b.buf, b.off, i)
 //
 //@ func Buffer.Len
 //@   property C11
@@ -241,3 +242,60 @@ package tex
 //@   property C11
 //@   ensures result != nil && isfresh(result) && result.buf == buf && result.off == 0 && result.lastRead == 0
 //@   modifies region($alloc)
+//
+//@ func Buffer.String
+//@   property C11
+//@   requires b != nil ==> bvalid(b)
+//@   ensures #nil b == nil ==> len(result) == 5
+//@   ensures #view b != nil ==> len(result) == blen(b) && forall i int :: { result[i] } 0 <= i && i < len(result) ==> result[i] == at(b, i)
+//@   modifies
+//
+// ReadRune: the documented behaviour in terms of utf8.DecodeRune on the unread bytes (the ASCII fast path must agree
+// with it); an empty buffer reports io.EOF
+//@ func Buffer.ReadRune
+//@   property C11
+//@   requires bvalid(b) && io.EOF != nil
+//@   use utf8_ascii(b.buf[b.off:len(b.buf)])
+//@   ensures #eof err != nil <==> old(blen(b)) == 0
+//@   ensures #empty err != nil ==> r == 0 && size == 0 && blen(b) == 0 && bvalid(b)
+//@   ensures #decoded err == nil ==> r == old(utf8decr(b.buf[b.off:len(b.buf)])) && size == old(utf8decn(b.buf[b.off:len(b.buf)])) && bvalid(b) && blen(b) == old(blen(b)) - size && b.lastRead == readOp(size)
+//@   ensures #rest err == nil ==> forall i int :: { at(b, i) } 0 <= i && i < blen(b) ==> at(b, i) == old(at(b, size + i))
+//@   modifies b.buf, b.off, b.lastRead
+//
+// WriteTo: hands the unread bytes to w in one Write; drained and reset iff the writer took everything
+//@ func Buffer.WriteTo
+//@   property C11
+//@   requires bvalid(b) && io.ErrShortWrite != nil
+//@   maypanic
+//@   ensures #count 0 <= int(n) && int(n) <= old(blen(b)) && iowritten == old(iowritten) + int(n) && b.lastRead == 0 && bvalid(b)
+//@   aftercall Write use i64roundtrip(result)
+//@   ensures #drained err == nil ==> int(n) == old(blen(b)) && blen(b) == 0
+//@   ensures #left blen(b) == old(blen(b)) - int(n) && forall i int :: { at(b, i) } 0 <= i && i < blen(b) ==> at(b, i) == old(at(b, int(n) + i))
+//@   ensures_panic false
+//@   modifies b.buf, b.off, b.lastRead, iowritten
+//
+//@ lemma i64roundtrip(m int)
+//@   property C11
+//@   requires -9223372036854775808 <= m && m <= 9223372036854775807
+//@   ensures int(int64(m)) == m
+//@ lemma utf8_ascii(p []uint8)
+//@   property C11
+//@   trusted UTF-8: a first byte below 0x80 is a complete one-byte encoding of itself (what utf8.DecodeRune returns for it)
+//@   ensures len(p) > 0 && p[0] < 128 ==> utf8decr(p) == rune(p[0]) && utf8decn(p) == 1
+//
+// ReadFrom: appends what the reader delivers (prophecy stream iosrc, /verif/extern/io.spec) until it reports an error;
+// io.EOF is not an error of ReadFrom
+//@ func Buffer.ReadFrom
+//@   property C11
+//@   arith int
+//@   requires bvalid(b) && iovalid() && io.EOF != nil && ioend < 4611686018427387904
+//@   maypanic
+//@   ensures #count n >= 0 && n == iopos - old(iopos) && blen(b) == old(blen(b)) + n && bvalid(b) && b.lastRead == 0
+//@   ensures #kept forall i int :: { at(b, i) } 0 <= i && i < old(blen(b)) ==> at(b, i) == old(at(b, i))
+//@   ensures #appended forall q int :: { at(b, q) } old(blen(b)) <= q && q < blen(b) ==> at(b, q) == elt(iosrc, old(iopos), q - old(blen(b)))
+//@   ensures_panic true
+//@   modifies b.buf, b.off, b.lastRead, iopos, region($alloc), b.buf[0:cap(b.buf)]
+//@   loop 1
+//@     invariant #count n >= 0 && n == iopos - old(iopos) && blen(b) == old(blen(b)) + n && bvalid(b) && b.lastRead == 0 && iovalid() && nalloc() >= old(nalloc()) && ((arrid(b.buf) == old(arrid(b.buf)) && off(b.buf) == old(off(b.buf)) && cap(b.buf) == old(cap(b.buf))) || isfresh(b.buf))
+//@     invariant #kept forall i int :: { at(b, i) } 0 <= i && i < old(blen(b)) ==> at(b, i) == old(at(b, i))
+//@     invariant #appended forall q int :: { at(b, q) } old(blen(b)) <= q && q < blen(b) ==> at(b, q) == elt(iosrc, old(iopos), q - old(blen(b)))
